@@ -458,6 +458,18 @@ func keyReplay(env *keyEnv, l string) {
 				keyAccessCase(env, back, !strings.HasPrefix(l, "#"), enc.name, f[0])
 			}
 		}
+	case "key.retain":
+		// #key.retain <ver> <scenario>
+		if len(f) != 2 {
+			return
+		}
+		ver, err := parseVer(f[0])
+		if err != nil {
+			return
+		}
+		if items, ok := keyRetainScenarios(env)[f[1]]; ok {
+			keyRetainCase(env, ver, f[1], items)
+		}
 	case "key.rt":
 		// #key.rt <path> <enc> <ver> <builder> <kf> <sample>
 		if len(f) != 6 {
@@ -527,7 +539,9 @@ func keyRun(ctx *Ctx) {
 	keyRunAccessPart(env)
 	t2 := time.Now()
 	keyRunRtPart(env)
-	fmt.Fprintf(os.Stderr, "key: lex %.1fs access %.1fs rt %.1fs\n", t1.Sub(t0).Seconds(), t2.Sub(t1).Seconds(), time.Since(t2).Seconds())
+	t3 := time.Now()
+	keyRunRetainPart(env)
+	fmt.Fprintf(os.Stderr, "key: lex %.1fs access %.1fs rt %.1fs retain %.1fs\n", t1.Sub(t0).Seconds(), t2.Sub(t1).Seconds(), t3.Sub(t2).Seconds(), time.Since(t3).Seconds())
 }
 
 var _ = rng.New
